@@ -1,5 +1,7 @@
 import GopModel.Driver.Loop
 import GopModel.Driver.Overload
+import GopModel.Driver.ClassFile
 open GopModel.Driver
 def main : IO Unit := runDriver (dispatchWith [
-  ("c10enc", handleC10Enc), ("c10dec", handleC10Dec), ("c10disp", handleC10Disp)])
+  ("c10enc", handleC10Enc), ("c10dec", handleC10Dec), ("c10disp", handleC10Disp),
+  ("c11type", handleC11Type)])
